@@ -45,6 +45,20 @@ def make_scenarios(ctx, n):
             prior = "one"
             o = [dict(x, meph=1) for x in o]
             subtree = "/e"
+        if i == 6:
+            # a directory holding a nested directory disappears from the source: the interrupted version's listing can
+            # continue with the nested directory and its file from the previous version while the directory's own entry
+            # (sorting early, among its siblings) is in neither part
+            def f6(d, m):
+                return {"k": "f", "data": d.hex(), "mode": 0o644, "mtime": 10**18 + m}
+
+            def d6(c):
+                return {"k": "d", "mode": 0o755, "mtime": 10**18, "c": c}
+            t0 = d6({"a": f6(b"a0", 1), "m": d6({"n": d6({"f": f6(b"f0", 2)})}), "z": f6(b"z0", 3)})
+            t1 = t2 = d6({"a": f6(b"a1!", 11), "z": f6(b"z1!", 13)})
+            prior = "one"
+            o = [dict(x, meph=2) for x in o]
+            subtree = "/m/n"
         if subtree is None:
             dirs = sorted({p for t in (t0, t2) for p, n in gen.tree_paths(t) if n["k"] == "d" and p != "/"})
             subtree = ctx.rng.choice(dirs) if dirs else "/"
@@ -91,7 +105,7 @@ def after_steps(sc, nb):
 
 def run(ctx):
     quick = ctx.tier == "quick"
-    scs = make_scenarios(ctx, 6 if quick else 60)
+    scs = make_scenarios(ctx, 7 if quick else 60)
     ctx.cov["rule"] = ("scenarios (0-2 earlier versions, possibly an interrupted one; a new source tree; options) x EVERY index k of the backup's "
                        "storage trace: stop before operation k, and for every write also stop after creating the file empty; then: the archive "
                        "opens, every previously completed version restores as before (by id and by 'latest complete'), no index entry refers to a "
@@ -214,6 +228,16 @@ def run(ctx):
                             break
                 if bad:
                     continue
+                # ... everything listed is restored, except what lies beneath a listed symlink (refused, with an error)
+                if partial.get("tree"):
+                    there = {pth for pth, _n in gen.tree_paths(partial["tree"])}
+                    links = [e["apath"] for e, _ in exp if e.get("kind") == "Symlink"]
+                    lost = [e["apath"] for e, _ in exp if e["apath"] not in there
+                            and not any(l != e["apath"] and gen.comp_prefix(l, e["apath"]) for l in links)]
+                    if lost:
+                        ctx.oracle_fail("crash/stitched-restore-missing", f"after {kind} at op {k}, restoring the interrupted version left out {lost[:4]}, "
+                                                                          f"which its listing contains: {json.dumps(partial.get('monitor_errors'))[:200]}", small)
+                        continue
                 # ... and nothing is created that the listing does not name (directories on the way to a listed path aside)
                 if partial.get("tree"):
                     listed = {e["apath"] for e, _ in exp}
